@@ -1160,6 +1160,23 @@ def glue(repo, tier):
                              [ast.unparse(b) for b in fj.body if not (isinstance(b, ast.Expr) and isinstance(b.value, ast.Constant))] == ["return deserialize_extraction(data)"])
     obls.append(ground_obligation("C05/data_types.py::ExtractionInterface.from_json/glue#from_json-is-deserialize_extraction", ok,
                                   "under a verified contract" if "ExtractionInterface.from_json" in verified else "", DT_PY, kind="glue", backend="ground", definite=False))
+    # module invariant behind the verified contract of _get_type_registry: its state starts empty and nobody else touches it
+    try:
+        sm = loader.module(SER_PY, repo)
+        names = registry_state_names()
+        acc = sm.functions.get("_get_type_registry")
+        outside = []
+        for q_, fn_ in sm.functions.items():
+            if fn_ is acc or "<locals>" in q_:
+                continue
+            outside += [f"{q_}:{x.lineno}" for x in ast.walk(fn_) if isinstance(x, ast.Name) and x.id in names]
+        if acc is not None:
+            obls.append(ground_obligation("C05/serialization.py::_get_type_registry/state#registry-state-starts-empty-and-is-private-to-its-accessor",
+                                          bool(names) and not outside, "; ".join(outside) or f"{names}: empty dict at import, used by _get_type_registry only",
+                                          SER_PY, kind="glue", backend="ground", definite=False))
+    except Exception as e:  # noqa
+        obls.append(ground_obligation("C05/serialization.py::_get_type_registry/state#registry-state-starts-empty-and-is-private-to-its-accessor", False, str(e),
+                                      SER_PY, kind="glue", backend="ground", definite=False))
     imp_ok = m.imports.get("serialize_extraction", "").endswith("serialization.serialize_extraction") and m.imports.get("deserialize_extraction", "").endswith("serialization.deserialize_extraction")
     obls.append(ground_obligation("C05/data_types.py::imports/glue#names-bound-to-serialization-module", imp_ok, str({k: m.imports.get(k) for k in ("serialize_extraction", "deserialize_extraction")}),
                                   DT_PY, kind="glue", backend="ground", definite=False))
@@ -1465,7 +1482,13 @@ ASSUMED_MODELS = ["dataclasses.is_dataclass / fields (instance: declared fields 
                   "base64.b64encode/b64decode and str.encode/bytes.decode('utf-8') are inverse pairs on base64 text",
                   "io.BytesIO tell/seek/read (ghost position; read() from position 0 returns the whole payload)",
                   "typing.get_origin / get_args / get_type_hints on the hint shapes of c05spec.H (Python < 3.14: `X | None` has origin types.UnionType)",
-                  f"{SER_PY}::_get_type_registry (reflective; content cross-checked natively against the AST-derived registry on every run)",
+                  "language-level reflection over the module data_types, as predicates on names (contracts/c05reflect.py): dir() lists every attribute "
+                  "name once and getattr of a listed name succeeds; isinstance(obj, type) / is_dataclass(obj) are pure (the body of _get_type_registry "
+                  "is VERIFIED against them since round 7; its content is still cross-checked natively against the AST-derived registry on every run)",
+                  "argparse: an option declared with action='store_true' yields a bool attribute (False unless given) named by dest, else by the first "
+                  "long option string with '-' -> '_' (cli._build_parser is VERIFIED against this since round 7)",
+                  "pathlib (as in pack C04): Path(str | Path) total; name / suffix are str; parent a Path; exists() / resolve() may raise OSError / "
+                  "RuntimeError; str(path) is a str (populate_from_path is VERIFIED against this since round 7)",
                   "xlrd.sheet.Cell: ctype in 0..6 and the value kind per ctype; xlrd.xldate_as_tuple returns six ints or raises",
                   "openpyxl reader cell values: None, bool, int, float, str, datetime, date, time, timedelta",
                   "xml Element.get(name, default) returns a str or the default (ODS kind flow)",
